@@ -781,6 +781,9 @@ func (s *Seq) fullSweep(ctx string) {
 	plan := s.genPlan(s.prng.Fork(2), 8)
 	s.runPlan(plan, "", ctx)
 	s.checkLayout(ctx)
+	if s.Prop == "C02" || s.Prop == "C13" {
+		s.stampProbe(ctx)
+	}
 }
 
 // genBadCmp draws a comparison with exactly one defect: unknown field,
